@@ -386,6 +386,11 @@ func runC04(c *hc.Ctx) error {
 				g, poly, kind, ids = gg, p2, "C-shaped thin hole around an island with a hole", randIDs(c.Rng, gg)
 			}
 		}
+		if i%8 == 1 { // an island with a hole inside a thick C-shaped hole, deep on WebMercatorQuad far from the origin (F23)
+			if dg, dp, did, ok := deepNestedCase(c.Rng); ok {
+				g, poly, kind, ids = dg, dp, "thick C-shaped hole around an island with a hole, deep real grid far from the origin", []int{did}
+			}
+		}
 		cfg := randCfg(c.Rng)
 		cfg.IgnoreOutsideGrid = false
 		evalC04(c, g, poly, kind, ids, cfg)
